@@ -975,7 +975,7 @@ impl Prop for Repair {
 			any::<u16>(),
 			prop_oneof![
 				3 => Just(None),
-				2 => (0u8..5, any::<u16>(), send_args_strategy(false, false, false, false)).prop_map(|(kind, acct, args)| Some(Cab { kind, acct, args })),
+				2 => (prop_oneof![1 => Just(0u8), 1 => Just(1u8), 1 => Just(2u8), 1 => Just(3u8), 2 => Just(4u8)], any::<u16>(), send_args_strategy(false, false, false, false)).prop_map(|(kind, acct, args)| Some(Cab { kind, acct, args })),
 			],
 			(prop::collection::vec(inject_strategy(), 0..5), prop_oneof![3 => Just(0u8), 1 => Just(1u8), 1 => Just(2u8), 1 => Just(3u8)], 0u8..4),
 			any::<u16>(),
@@ -1042,7 +1042,12 @@ fn run_cab(sim: &mut Sim, w: usize, cab: &Cab, steps: &mut Vec<String>) -> Resul
 		if sim.slates[si].mined_at.is_none() {
 			return Err("transaction was not mined".into());
 		}
-		steps.push(format!("wallet {} received a payment into account {} which confirmed at height {} (account not refreshed since)", w, a, sim.world.height()));
+		let confirmed_at = sim.world.height();
+		// 0..3 more blocks pass before the scan, so that start heights above the confirming block exist below the tip
+		for _ in 0..(cab.args.change % 4) {
+			sim.mine(None, 0)?;
+		}
+		steps.push(format!("wallet {} received a payment into account {} which confirmed at height {} (account not refreshed since; tip now {})", w, a, confirmed_at, sim.world.height()));
 		return Ok(Some((a + 1) % ACCOUNTS.len()));
 	}
 	let (si, canceller_entry) = match cab.kind % 5 {
@@ -1335,7 +1340,15 @@ impl Repair {
 		let sa = forced_acct.unwrap_or_else(|| idx(c.scan_acct, ACCOUNTS.len()));
 		sim.switch_account(w, sa)?;
 		let active_parent = sim.acct_parent(sa);
-		let start = c.start.resolve(tip);
+		let mut start = c.start.resolve(tip);
+		if let (Some(cab), Some(s0)) = (&c.cab, start) {
+			if cab.kind % 5 == 4 && forced_acct.is_some() && s0 > 1 {
+				// partial scans that start above the block which confirmed the not-yet-refreshed receive
+				let below = (cab.args.change % 4) as u64;
+				let ch = tip.saturating_sub(below);
+				start = Some(ch + 1 + s0 % (tip - ch + 1));
+			}
+		}
 		let s_eff = start.unwrap_or(1);
 		let full = s_eff <= 1;
 		let del = c.delete_unconfirmed;
